@@ -544,13 +544,13 @@ fn dump_nms(_o: &Opts, idx: usize, c: &Value) -> Value {
             let d = &jd[i];
             let (xc, yc, angle, aspect, height) = lattice_args(jget(d, "box"), false);
             let s = jint(d, "score");
-            (ubox(xc, yc, angle, aspect, height, (i + 1) as f64 / 64.0), if s < 0 { None } else { Some((s as f64 / 100.0) as f32) })
+            (ubox(xc, yc, angle, aspect, height, (i + 1) as f64 / 64.0), if s <= crate::nms_replay::NO_SCORE { None } else { Some((s as f64 / 100.0) as f32) })
         })
         .collect();
     let thr_v = jarr(c, "thr");
     let thr = (ji(&thr_v[0]) as f64 / ji(&thr_v[1]) as f64) as f32;
     let st = jint(c, "sthr");
-    let sthr = if st < 0 { None } else { Some((st as f64 / 100.0) as f32) };
+    let sthr = if st <= crate::nms_replay::NO_SCORE { None } else { Some((st as f64 / 100.0) as f32) };
     let res = similari::utils::nms::nms(&dets, thr, sthr);
     json!({"order": order.iter().map(|i| i + 1).collect::<Vec<_>>(),
            "idx": res.iter().map(|b| (b.confidence as f64 * 64.0).round() as i64).collect::<Vec<_>>(),
